@@ -60,6 +60,12 @@ CLAIMS = {
  "C15": dict(technique="Lean 4 history theorem over a register machine (invariant + per-step Hoare triple against a membership-only specification, induction over the operation list) + histories run on both implementations against the model and an independent reference",
              text="Machine-checked proof: every step of every operation history (any length, any universe with decidable equality) from the empty registers satisfies `Spec` — the answer is the mathematical one, the destination holds exactly the mathematical result, every other register (the operands) is unchanged — and `Nodup` is invariant; plus membership laws for union/intersection/difference/symmetric difference/subset/superset/equality, Cartesian product membership, power set size 2^n / soundness / completeness. Tie: whole histories over three registers, answered step by step by the model, by NewSet() and by NewThreadUnsafeSet(); exhaustive short histories over a reduced alphabet and seeded random histories of length <=60; the oracle checks all three registers against an independent reference after every step (aliasing of results and operands shows there).",
              design="7 (C15)", note="Trusted: Lean kernel + standard axioms; correspondence check. Modelled: Go maps as duplicate-free lists (iteration order canonicalised by sorting on both sides); the thread-safe set as the same data functions (its locking is C16/C17); PowerSet/CartesianProduct/String/Iter/ToSlice are observers outside the register machine's `Op` type, covered by their own lemmas and the correspondence."),
+ "C16": dict(technique="Lean 4 invariant proofs over a small-step RW-lock semantics (access discipline preserved, exclusion invariant, no data race in any reachable state of any program) + `decide` over lock/access sequences regenerated from the code on every run + Go race detector on all operation pairs",
+             text="Machine-checked proof (PARTIAL): every operation's recorded lock events interleaved with its map accesses satisfy the access discipline (`decide` over regenerated facts); for ANY program (any number of goroutines, any sequence of the 18 operations each, two sets incl. aliased/swapped operands) every reachable state preserves the discipline and the exclusion invariant and has no data race. NOT proved: the last step to linearizability; the runtime below sync.RWMutex is assumed, not modelled. Tie: sequences recorded through the verif hook at check time = sequences compiled into the model; direct evaluation: all 648 ordered pairs of operations on shared operands under the Go race detector (-race build of the oracle), plus a focused probe for any undisciplined operation.",
+             design="7 (C16)", note=LOCKNOTE),
+ "C17": dict(technique="Lean 4 deadlock-freedom and termination proofs over the same RW-lock semantics (writer preference modelled) + `decide` over recorded lock skeletons + stress on the real code + model-found deadlock schedules replayed on the real code through the hook",
+             text="Machine-checked proof: the recorded lock skeleton of every operation under every operand assignment is ordered (no re-acquisition, fixed order, matched releases) — `decide` over regenerated facts; for ANY program over the two sets, in every reachable state with an unfinished goroutine some goroutine can step (writers queued or not), and every step decreases a measure, so every operation returns under every schedule. Tie: recorded sequences = model sequences; direct evaluation: every ordered pair of operations on swapped/aliased operands with queued writers under a watchdog; when a skeleton is not ordered the driver searches the model for a deadlock schedule and the oracle replays it on the real code with gated acquisitions — only a reproduced deadlock is a failing input.",
+             design="7 (C17)", note=LOCKNOTE),
 }
 
 PENDING = {}
